@@ -276,8 +276,34 @@ def _history(ctx, name, symbols, eps, body, state, want, main_got, dom, consts, 
         hruns = paths.explore_claim(lambda: body(prev))
     except Exception as exc:
         state.restore()
+        # the engine cannot follow the state the function keeps (e.g. a float array allocated before the call): bounded
+        # native search over two-call sequences; a hit is a violation with its input, a miss leaves the obligation undecided
+        import random as _random
+        rng_ = _random.Random(ctx.seed + 5)
+        hit = None
+        prim = {s_.name: s_.name + paths.PRIME for s_ in base}
+        for n_try, pt in enumerate(paths.candidates(allsyms, dom2, rng_, field.DEFAULT_BOX, eps=eps, primed=prim, n_base=2)):
+            if n_try > 40:
+                break
+            if n_try % 4:            # mostly far-apart and one-coordinate variants
+                continue
+            try:
+                r_ = native_fn(pt)
+            except Exception:
+                state.restore()
+                continue
+            state.restore()
+            if r_ and r_.get("reproduced"):
+                hit = r_
+                break
+        if hit is not None:
+            ctx.ob(name + ".history", "f", False, "bounded native falsification (two-call sequences; symbolic execution impossible)", time.time() - t0,
+                   "the result of a call depends on an earlier call (the engine could not execute the second call symbolically: %s)" % repr(exc)[:160],
+                   cex=dict(point=hit.get("inputs"), previous=hit.get("previous_call_inputs")), native=hit)
+            return
         ctx.ob(name + ".history", "f", None, "symbolic-execution(two calls)", time.time() - t0,
-               "the second of two calls could not be executed symbolically (%s): the function keeps state the engine cannot follow" % repr(exc)[:200])
+               "the second of two calls could not be executed symbolically (%s): the function keeps state the engine cannot follow; "
+               "no failing two-call sequence found natively" % repr(exc)[:200])
         return
     state.restore()
     n_paths = skipped = 0
@@ -693,20 +719,22 @@ def _history_taylor(ctx, name, symbols, eps, body, state, want, main_got, main_c
 
 @guarded_claim
 def history_independent(ctx, name, symbols, code, domain=None, kind="f", cos_nonneg=(), py=None, rdomain_kw=None,
-                        extra_relations=(), tol=1e-9):
+                        extra_relations=(), tol=1e-9, before=None):
     """Obligation `name.history` without a spec: the result of code(v) after a call on other inputs (same captured
     objects, same module state) is the result of a single call, on every witnessed path of the two-call sequence.
-    Use where the functional contract is checked by other means but the function belongs to a stateful object."""
+    Use where the functional contract is checked by other means but the function belongs to a stateful object.
+    `before`: the earlier call is this other function (on the primed inputs) instead of `code` itself."""
     py = py or load()
     dom = full_domain(py, domain)
-    state = paths.Captured(code, py)
+    before = before or code
+    state = paths.Captured(lambda: (code, before), py)
     consts = const_point(py)
 
     def body(prev=None):
         state.restore()
         with rdomain(py, **(rdomain_kw or {})):
             if prev is not None:
-                code({s.name: RSym(prev[s]) for s in symbols})
+                before({s.name: RSym(prev[s]) for s in symbols})
             return flat(code({s.name: RSym(s) for s in symbols})), []
 
     runs = paths.explore_claim(body)
@@ -723,7 +751,7 @@ def history_independent(ctx, name, symbols, code, domain=None, kind="f", cos_non
         state.restore()
         alone = flat_float(code(v))
         state.restore()
-        code(prev)
+        before(prev)
         after = flat_float(code(v))
         state.restore()
         sc = max([abs(x) for x in alone] + [1e-300])
